@@ -6,7 +6,7 @@ mpn_popcount / mpn_hamdist.  Merged into c10.py automatically."""
 from genlib import *
 
 LEAN_MODULES = ["MpirProofs.Props.C10_swar"]
-THEOREMS = ["Mpir.Swar." + t for t in ["limb4_fields", "limb4_popc", "n4_range", "red2_fields", "red4_fields", "block_eq", "block_le_256", "tailLimb_fields"]]
+THEOREMS = ["Mpir.Swar." + t for t in ["limb4_fields", "limb4_popc", "n4_range", "red2_fields", "red4_fields", "block_eq", "block_le_256", "tailLimb_fields", "tail_eq"]]
 TRUSTED = ["hand-written model lean/Mpir/Model/Swar.lean (statement-by-statement mirror of mpn/generic/popcount.c for GMP_LIMB_BITS = 64; "
            "hamdist.c is the same text on u ^ v), tied to the library's mpn_popcount / mpn_hamdist by differential execution on every run",
            "RUN ONLY (not yet proved): the tail loop's accumulation and final folds as a whole (popcount.c:101-114; the lemmas tailFin_bytes, "
